@@ -79,6 +79,7 @@ type Recorder struct {
 	ProbeSlots bool
 
 	unvalidated func() (*absstate.State, bool)
+	negPre      *absstate.State
 }
 
 func New(out io.Writer) *Recorder {
